@@ -19,7 +19,10 @@ Inductive case :=
 | CCand (mn mx : option Z) (imin imax : option bool) (impl_cands : list bytes)
 | CApi (mn mx : option Z) (imin imax : option bool) (docs : list (list Z)) (impl_hits : list bool)
 | CDate (lo hi : option Z) (imin imax : option bool) (docs : list (list Z)) (impl_hits : list bool)
-| CSort (vals : list Z) (impl_order : list Z).
+| CSort (vals : list Z) (impl_order : list Z)
+(* sort by a multi-valued numeric (bit patterns) or datetime (int64 nanoseconds) field with
+   SortField{Mode, Desc, Missing}: doc i holds [nth i docs]; [impl_order] = doc indices of the hits *)
+| CSortM (date : bool) (mode : Z) (desc mfirst : bool) (docs : list (list Z)) (impl_order : list Z).
 
 Definition cmp_code (c : comparison) : Z := match c with Lt => -1 | Eq => 0 | Gt => 1 end.
 
@@ -72,6 +75,88 @@ Definition date_matches_spec (lo hi : option Z) (imin imax : option bool) (vals 
     (match lo with None => true | Some l => if imin' then l <=? v else l <? v end) &&
     (match hi with None => true | Some h => if imax' then v <=? h else v <? h end)) vals.
 
+(* ---- SPEC for sorting by a multi-valued field (search.SortField with Mode / Desc / Missing) ----
+   The sort key of a document is a NUMBER: the least (mode 1 = min) or greatest (mode 2 = max) of its
+   values in numeric order ([f2i] of the bit pattern — C07_f2i_order: that is the float order — or the
+   int64 nanoseconds of a date), or "missing" when it has no value.  Missing documents come first or
+   last as requested, in both directions.  The hits must be a permutation of the documents whose keys
+   never step down.  (Which of two documents with EQUAL keys comes first is C06's subject, not judged
+   here.)  Mode 0 (default) does not say which of several values is the key — the implementation takes
+   the first one its doc-value reader visits — so the judgement is: there is a choice of one value per
+   document under which the keys never step down (greedy: the least feasible value). *)
+Inductive mkey := KMissing | KVal (z : Z).
+
+Definition num (date : bool) (v : Z) : Z := if date then v else f2i v.
+
+(* strictly before, in the requested direction and missing placement *)
+Definition mkey_ltb (desc mfirst : bool) (a b : mkey) : bool :=
+  match a, b with
+  | KMissing, KMissing => false
+  | KMissing, KVal _ => mfirst
+  | KVal _, KMissing => negb mfirst
+  | KVal x, KVal y => if desc then y <? x else x <? y
+  end.
+
+Definition doc_key (date : bool) (mode : Z) (vals : list Z) : mkey :=
+  match map (num date) vals with
+  | [] => KMissing
+  | x :: l => if mode =? 2 then KVal (fold_left Z.max l x) else KVal (fold_left Z.min l x)
+  end.
+
+Definition doc_candidates (date : bool) (vals : list Z) : list mkey :=
+  match vals with [] => [KMissing] | _ => map (fun v => KVal (num date v)) vals end.
+
+(* the least (in the requested direction) candidate that is not before [prev] *)
+Definition least_feasible (desc mfirst : bool) (prev : option mkey) (cands : list mkey) : option mkey :=
+  fold_left (fun best c =>
+    let ok := match prev with None => true | Some p => negb (mkey_ltb desc mfirst c p) end in
+    if ok then match best with
+               | None => Some c
+               | Some b => if mkey_ltb desc mfirst c b then Some c else best
+               end
+    else best) cands None.
+
+Fixpoint never_steps_down (desc mfirst : bool) (prev : option mkey) (ks : list mkey) : bool :=
+  match ks with
+  | [] => true
+  | k :: ks' =>
+      match prev with None => true | Some p => negb (mkey_ltb desc mfirst k p) end &&
+      never_steps_down desc mfirst (Some k) ks'
+  end.
+
+Fixpoint some_choice_never_steps_down (desc mfirst : bool) (prev : option mkey) (cs : list (list mkey)) : bool :=
+  match cs with
+  | [] => true
+  | c :: cs' =>
+      match least_feasible desc mfirst prev c with
+      | None => false
+      | Some k => some_choice_never_steps_down desc mfirst (Some k) cs'
+      end
+  end.
+
+Definition is_permutation_of_indices (n : nat) (order : list Z) : bool :=
+  (length order =? n)%nat &&
+  forallb (fun i => existsb (Z.eqb (Z.of_nat i)) order) (seq 0 n).
+
+Definition sortm_ok (date : bool) (mode : Z) (desc mfirst : bool) (docs : list (list Z)) (order : list Z) : bool :=
+  is_permutation_of_indices (length docs) order &&
+  let vals_of i := nth (Z.to_nat i) docs [] in
+  if (mode =? 1) || (mode =? 2)
+  then never_steps_down desc mfirst None (map (fun i => doc_key date mode (vals_of i)) order)
+  else some_choice_never_steps_down desc mfirst None (map (fun i => doc_candidates date (vals_of i)) order).
+
+(* for replay files: a sorted order (stable insertion sort by the key, ties in index order);
+   for mode 0 the key shown is the least value *)
+Fixpoint insert_idx (ltb : Z -> Z -> bool) (x : Z) (l : list Z) : list Z :=
+  match l with
+  | [] => [x]
+  | y :: l' => if ltb x y then x :: l else y :: insert_idx ltb x l'
+  end.
+Definition sortm_expected (date : bool) (mode : Z) (desc mfirst : bool) (docs : list (list Z)) : list Z :=
+  let key i := doc_key date mode (nth (Z.to_nat i) docs []) in
+  fold_left (fun acc i => insert_idx (fun a b => mkey_ltb desc mfirst (key a) (key b)) i acc)
+            (map Z.of_nat (seq 0 (length docs))) [].
+
 Definition check (c : case) : bool :=
   match c with
   | CF2I bits ii back =>
@@ -110,6 +195,7 @@ Definition check (c : case) : bool :=
       bool_list_eqb (map (date_matches_spec lo hi imin imax) docs) hits &&
       list_eqb (option_eqb Bool.eqb) (map (doc_matches_model mn mx imin imax) fdocs) (map Some hits)
   | CSort vals order => Z_list_eqb (sort_indices vals) order
+  | CSortM date mode desc mfirst docs order => sortm_ok date mode desc mfirst docs order
   end.
 
 (* what the model expects, for replay files *)
@@ -135,4 +221,5 @@ Definition explain (c : case) : expl :=
       EApi (map (date_matches_spec lo hi imin imax) docs)
            (map (doc_matches_model (option_map i2f lo) (option_map i2f hi) imin imax) (map (map i2f) docs))
   | CSort vals _ => ESort (sort_indices vals)
+  | CSortM date mode desc mfirst docs _ => ESort (sortm_expected date mode desc mfirst docs)
   end.
